@@ -1,5 +1,4 @@
-import TrionModel.Lemmas.TriasMap
-import TrionModel.Lemmas.MapFind
+import TrionModel.Lemmas.TriasBoot
 import TrionModel.Props.C17
 /-!
 # C18 — the file written by `trias` reproduces the assembled image
@@ -314,6 +313,31 @@ theorem bootCrc_is_map_put (m : List Seg) (hn : Norm m) (h0 : (lookup m 0x100000
     rw [le32_length] at hx2
     have := hfree (x - 0x100000FC) (by omega)
     rwa [show 0x100000FC + (x - 0x100000FC) = x by omega] at this
+
+/-- C18.e  **The checksum step replayed on the `MemoryMap` model.** `bootMap` (Model/TriasPad.lean) is step 2 of
+`assemble()` statement by statement on the C15 model — `find(FLASH_BASE, Exact)`, the loop over
+`iter_range(FLASH_BASE ..= FLASH_BASE + 0xFF)` with the refusal test `range.get_last() >= FLASH_CRC` and
+`temp[first..=last].copy_from_slice(data)`, the CRC over `temp`, `put(FLASH_CRC, ..)` — with the `u32`
+subtractions, slice bounds, `copy_from_slice` length check, index panics of the map and a failing `put` as error
+outcomes. On every well-formed map it agrees with `bootCrc` used by `post`: it refuses exactly when `bootCrc`
+does, otherwise yields the same segment list, and no other outcome occurs. -/
+theorem boot_step_is_map_step (m : List Seg) (hn : Norm m) :
+    bootMap m = match bootCrc m with
+      | .ok m1 => .ok m1
+      | .error _ => .error .refuse :=
+  bootMap_eq m ((norm_iff_minv m).mp hn)
+
+/-- C18.e  **The padding loop replayed on the `MemoryMap` model.** `padMap` (Model/TriasPad.lean) is the Rust
+loop statement by statement on the C15 model — `find(0, Above)`, `find(prev + 1, Above)` (binary search),
+`assert_eq!(put(.., &BLANK_PAGE[..n]), Ok(n))` (merge walk), `prev = range.get_last()` — with the asserts, a
+panic of `find` and the model's iteration bound as error outcomes. On every well-formed map it returns exactly
+the list recursion `padAll` used by `post`; in particular none of the three `assert_eq!` can fire. -/
+theorem pad_loop_is_map_loop (m : List Seg) (hn : Norm m) : padMap m = .ok (padAll m) :=
+  padMap_eq m ((norm_iff_minv m).mp hn)
+
+example : padMap [(0x10000005, [1]), (0x10000105, [2]), (0x10000110, [3]), (0x10000205, [4])] =
+    .ok [(0x10000000, [0, 0, 0, 0, 0, 1]), (0x10000100, [0, 0, 0, 0, 0, 2, 0, 0, 0, 0, 0, 0, 0, 0, 0, 0, 3]),
+      (0x10000200, [0, 0, 0, 0, 0, 4])] := by rfl
 
 /-- C18.d  An empty image produces no file. -/
 theorem empty_refused : post [] = .error .empty := rfl
